@@ -116,6 +116,41 @@ func checkC23(r *sim.Run, b *chainBlock, prior, post *types.State) {
 	}
 }
 
+// refSealer is the slot-sealer sequence and the active validator set the property prescribes for a block at `slot`
+// on top of `prior` (same rule as in checkC23, usable before the node has accepted the block).
+func refSealer(prior *types.State, slot types.TimeSlot) (seq types.TicketsOrKeys, kappa types.ValidatorsData, kind string) {
+	e, m := epochOf(prior.Tau)
+	e2, _ := epochOf(slot)
+	switch {
+	case e2 == e:
+		return prior.Gamma.GammaS, prior.Kappa, "unchanged"
+	case e2 == e+1 && int(m) >= types.SlotSubmissionEnd && len(prior.Gamma.GammaA) == types.EpochLength:
+		seq.Tickets = outsideInRef(prior.Gamma.GammaA)
+		return seq, prior.Gamma.GammaK, "tickets"
+	}
+	seq.Keys = refFallback(prior.Eta[1], prior.Gamma.GammaK)
+	return seq, prior.Gamma.GammaK, "fallback"
+}
+
+// sealedAsPrescribed: the block's author is the validator the prescribed sealer sequence names for its slot
+// (fallback key of the slot, or the owner of the slot's ticket as recorded when the harness made the ticket).
+func (ru *run) sealedAsPrescribed(prior *types.State, b *types.Block) (bool, string) {
+	seq, kappa, kind := refSealer(prior, b.Header.Slot)
+	idx := int(b.Header.Slot) % types.EpochLength
+	if int(b.Header.AuthorIndex) >= len(kappa) {
+		return false, kind
+	}
+	key := kappa[b.Header.AuthorIndex].Bandersnatch
+	if len(seq.Tickets) == types.EpochLength {
+		o, ok := ru.a.owners[seq.Tickets[idx].ID]
+		return ok && validators[o.val].pub.Bandersnatch == key, kind
+	}
+	if len(seq.Keys) == types.EpochLength {
+		return seq.Keys[idx] == key, kind
+	}
+	return false, kind
+}
+
 func normTK(t types.TicketsOrKeys) string {
 	return fmt.Sprintf("T%v K%x", ticketStr(t.Tickets), t.Keys)
 }
